@@ -66,6 +66,14 @@ class Prop(BaseProp):
             for op, res in specials:
                 a = [genvals.gen_value(rng, ty, genvals.leaf_rand, re_leaf=(lambda r, v=v: r.choice([r.uniform(-3, 3), -r.uniform(0.5, 3)]) if v is None else v)) for v in res]
                 emit(ty, op, a, [])
+        # two-operand methods on the vector types with one operand a constant (no derivative part at all) and the other carrying one, both ways round
+        for ty in tys:
+            if ty.struct not in ('DualVec', 'Dual2Vec'):
+                continue
+            for op in ('cf_powf', 'cf_powc', 'cf_log', 'cf_hypot', 'rf_atan2', 'cf_scale', 'cf_unscale', 'rf_copysign', 'rf_max', 'rf_min'):
+                for pa, pb in ((False, True), (True, False)):
+                    a = [genvals.gen_value(rng, ty, genvals.leaf_rand, re_leaf=lambda r: r.uniform(0.3, 3), presence=pp) for pp in (pa, pb)]
+                    emit(ty, op, a, [])
         k = 0
         while len(out) < n:
             ty = tys[k % len(tys)]
